@@ -18,8 +18,15 @@ struct Job {
     id: usize,
     /// value of `model::POLLS_BEFORE_SIGNAL` found by the calibration
     polls_before_signal: bool,
+    /// value of `model::QUEUE_CAP` found by the calibration
+    #[serde(default = "default_cap")]
+    queue_cap: usize,
     cfg: Cfg,
     schedule: Vec<Action>,
+}
+
+fn default_cap() -> usize {
+    15
 }
 
 #[derive(Serialize, Deserialize)]
@@ -44,16 +51,18 @@ fn run_job(h: &mut Harness, job: &Job) -> JobResult {
     if job.id == usize::MAX {
         // calibration request from the parent
         let v = calibrate(h);
+        let cap = calibrate_cap(h);
         return JobResult {
             id: job.id,
             attempts: 1,
-            outcome: Outcome { probe: format!("calibrated:{v}"), ..Default::default() },
+            outcome: Outcome { probe: format!("calibrated:{v}:cap={cap}"), ..Default::default() },
             violations: vec![],
             timing_inconclusive: vec![],
             divergences_not_reproduced: 0,
         };
     }
     model::POLLS_BEFORE_SIGNAL.store(job.polls_before_signal, std::sync::atomic::Ordering::Relaxed);
+    model::QUEUE_CAP.store(job.queue_cap, std::sync::atomic::Ordering::Relaxed);
     let mut attempts = 0u32;
     let mut divergences_not_reproduced = 0u32;
     // One "settled" execution: not timing-unsafe (the short timeout did not race the scheduled
@@ -194,9 +203,18 @@ fn configs(tier: verif_common::Tier, shape: Option<&str>) -> Vec<Cfg> {
         } else {
             &[(1, 9, &[Mode::Generous]), (1, 16, &[Mode::Generous, Mode::Forced])]
         };
+        // sizes are written for the capacity of the pinned tree (15); with another measured capacity c the sizes that were chosen
+        // relative to it move along: n >= 15 becomes n - 15 + c (capped at 80 connections: beyond the 61 tasks a tokio LocalSet
+        // polls per tick, which is what a deeper queue has to survive), smaller sizes stay
+        let cap = model::QUEUE_CAP.load(std::sync::atomic::Ordering::Relaxed);
+        let mut seen = std::collections::BTreeSet::new();
         for &(workers, clients, modes) in bulk {
+            let per_worker = 15 * workers as usize;
+            let n = if (clients as usize) >= per_worker { (clients as usize - per_worker + cap * workers as usize).min(80) } else { clients as usize };
             for &mode in modes {
-                v.push(Cfg { workers, clients, max_req: 1, mode, bulk: true });
+                if seen.insert((workers, n, mode as u8)) {
+                    v.push(Cfg { workers, clients: n as u8, max_req: 1, mode, bulk: true });
+                }
             }
         }
     }
@@ -228,6 +246,49 @@ fn calibrate(h: &mut Harness) -> bool {
         );
     }
     answered
+}
+
+/// Capacity probe: one worker held at its first checkpoint, `CAP_PROBE_CLIENTS` connections sent one after the other, the shadow
+/// model told that the queue never fills: the first connection the implementation DROPS (a divergence from that model) is the
+/// capacity. No drop: the capacity is at least the number of clients (and that is what the model will assume).
+const CAP_PROBE_CLIENTS: u8 = 140;
+fn calibrate_cap(h: &mut Harness) -> usize {
+    use std::sync::atomic::Ordering::Relaxed;
+    let saved = model::QUEUE_CAP.load(Relaxed);
+    model::QUEUE_CAP.store(usize::MAX, Relaxed);
+    let cfg = Cfg { workers: 1, clients: CAP_PROBE_CLIENTS, max_req: 1, mode: Mode::Forced, bulk: true };
+    let mut st = crate::model::State::init(cfg);
+    let mut schedule = Vec::new();
+    for _ in 0..100_000 {
+        let en = st.enabled();
+        let Some(&a) = en.first() else { break };
+        schedule.push(a);
+        st = st.step(a).0;
+    }
+    let mut seen: Vec<usize> = Vec::new();
+    for _ in 0..2 {
+        let o = h.execute(cfg, &schedule);
+        let cap = match &o.diverged {
+            Some(why) => why
+                .split("ADropped(")
+                .nth(1)
+                .and_then(|r| r.split(|c: char| !c.is_ascii_digit()).next())
+                .and_then(|n| n.parse::<usize>().ok()),
+            None => Some(CAP_PROBE_CLIENTS as usize),
+        };
+        match cap {
+            Some(c) => seen.push(c),
+            None => eprintln!("capacity probe: unexpected divergence {:?}", o.diverged),
+        }
+    }
+    model::QUEUE_CAP.store(saved, Relaxed);
+    match seen.as_slice() {
+        [a, b] if a == b && *a > 0 => *a,
+        _ => {
+            eprintln!("capacity probe inconclusive ({seen:?}): keeping {saved}");
+            saved
+        }
+    }
 }
 
 struct Pool {
@@ -306,7 +367,9 @@ fn replay_main(args: &verif_common::Args, path: &std::path::Path) -> ! {
         .unwrap_or_else(|e| verif_common::machinery_error(&format!("replay schedule: {e}")));
     let mut h = Harness::new();
     let polls_before_signal = calibrate(&mut h);
-    let job = Job { id: 0, polls_before_signal, cfg, schedule };
+    let queue_cap = calibrate_cap(&mut h);
+    model::QUEUE_CAP.store(queue_cap, std::sync::atomic::Ordering::Relaxed);
+    let job = Job { id: 0, polls_before_signal, queue_cap, cfg, schedule };
     let r1 = run_job(&mut h, &job);
     let r2 = run_job(&mut h, &job);
     println!("replay of {} ({})", path.display(), args.property);
@@ -362,15 +425,19 @@ pub fn main() {
         });
 
     // 0. which implementation variant does the shadow model have to mirror?
-    let polls_before_signal = {
+    let (polls_before_signal, queue_cap) = {
         let (p, _) = run_pool(
-            vec![Job { id: usize::MAX, polls_before_signal: false, cfg: cfgs_probe(), schedule: vec![] }],
+            vec![Job { id: usize::MAX, polls_before_signal: false, queue_cap: default_cap(), cfg: cfgs_probe(), schedule: vec![] }],
             1,
             None,
         );
-        p.results[0].outcome.probe == "calibrated:true"
+        let probe = p.results[0].outcome.probe.clone();
+        let cap = probe.split(":cap=").nth(1).and_then(|c| c.parse::<usize>().ok()).unwrap_or_else(default_cap);
+        (probe.starts_with("calibrated:true"), cap)
     };
     model::POLLS_BEFORE_SIGNAL.store(polls_before_signal, std::sync::atomic::Ordering::Relaxed);
+    model::QUEUE_CAP.store(queue_cap, std::sync::atomic::Ordering::Relaxed);
+    println!("calibration: polls_before_signal={polls_before_signal}, measured queue capacity={queue_cap}");
     // 1. exhaustive exploration of the shadow model, per configuration
     let cfgs = configs(args.tier, args.extra("shape"));
     let mut jobs: Vec<Job> = Vec::new();
@@ -388,7 +455,7 @@ pub fn main() {
         let first = jobs.len();
         for s in sch {
             let id = jobs.len();
-            jobs.push(Job { id, polls_before_signal, cfg: *cfg, schedule: s });
+            jobs.push(Job { id, polls_before_signal, queue_cap, cfg: *cfg, schedule: s });
         }
         job_cfg_range.push((*cfg, first, jobs.len()));
     }
@@ -583,6 +650,7 @@ pub fn main() {
         "events_observed": events,
         "executor_processes": n_children,
         "model_variant_polls_before_signal": polls_before_signal,
+        "measured_queue_capacity": queue_cap,
         "outcome_histogram": hist,
     });
     let code = rep.finish(
